@@ -148,6 +148,9 @@ class Model(probe.Contract):
         c.check(self.api, 'one_gate_group_per_qubit', ok, ['n=%d' % n], prop=P)
         if not ok:
             return
+        if n > 16:
+            self.qft_structural(c, G, n, sign)
+            return
         if n > 8:
             self.qft_by_action(c, G, n, sign)
             return
@@ -161,6 +164,35 @@ class Model(probe.Contract):
         err = float(np.max(np.abs(prod - want)))
         c.check(self.api, 'groups_multiply_to_bit_reversed_dft', err <= 1e-10, ['n=%d' % n], {'n': n, 'err': err}, prop=P)
         c.sig(self.api, n)
+
+    def qft_structural(self, c, G, n, sign):
+        """registers beyond any dense vector (n > 16): every gate group must have finite entries and be unitary, decided exactly from the
+        cores: ||G^H G - I||_F^2 / 2^n = t2 - 2 t1 + 1 with t1 = tr(G^H G) / 2^n and t2 = tr((G^H G)^2) / 2^n, both obtained by transfer-matrix
+        contractions over the sites (bond dimensions r^2 and r^4, each site normalised by 1/2)"""
+        worst, finite = 0.0, True
+        for k, g in enumerate(G):
+            cores = [np.asarray(cr) for cr in g.cores]
+            if not all(np.all(np.isfinite(cr)) for cr in cores):
+                finite = False
+                c.check(self.api, 'gate_group_entries_finite', False, ['n>16', 'group=%d' % k if k < 3 else 'group>=3'], {'n': n, 'group': k}, prop=P)
+                break
+            if max(g.ranks) > 4:
+                continue
+            T1 = np.ones((1, 1), dtype=complex)
+            T2 = np.ones((1, 1), dtype=complex)
+            for cr in cores:
+                # A[a, i, j, b]: operator core; (G^H G) core: sum_i conj(A[a,i,j,b]) A[a',i,j',b']
+                M = np.einsum('aijb,cikd->acjkbd', np.conj(cr), cr)  # (a, c, j, k, b, d)
+                ra, rb = cr.shape[0] ** 2, cr.shape[3] ** 2
+                Mm = M.reshape(ra, cr.shape[2], cr.shape[2], rb)
+                T1 = T1 @ (np.einsum('ajjb->ab', Mm) / 2.0)
+                T2 = T2 @ (np.einsum('ajkb,ckjd->acbd', Mm, Mm).reshape(ra * ra, rb * rb) / 2.0)
+            t1, t2 = complex(T1[0, 0]), complex(T2[0, 0])
+            worst = max(worst, abs(t2 - 2 * t1 + 1))
+        if finite:
+            c.check(self.api, 'gate_group_entries_finite', True, ['n>16'], prop=P)
+            c.check(self.api, 'gate_group_unitary', worst <= 1e-10, ['n>16'], {'n': n, 'worst_normalised_defect': worst}, prop=P)
+        c.sig(self.api, 'structural', n // 16)
 
     def qft_by_action(self, c, G, n, sign):
         """larger registers: the gate groups are applied, in TT form, to a batch of random complex vectors and unit vectors; every group
